@@ -124,7 +124,7 @@ func (o *obsStream) SetContext(c publictypes.LunarContextI) {
 	o.APIStreamI.SetContext(c)
 }
 
-type probe struct{ key string }
+type probe struct{ key, owner string } // owner: the flow whose `processors:` section created this instance
 
 func (p *probe) GetName() string { return p.key }
 
@@ -146,7 +146,8 @@ func (p *probe) Execute(flowName string, apiStream publictypes.APIStreamI) (stre
 	if v.kind == 'x' {
 		desc = "x"
 	}
-	o.st.events = append(o.st.events, "P:"+proto.Enc(flowName)+":"+proto.Enc(p.key)+":"+dir+":"+desc)
+	// the instance that ran is reported as `<owning flow>.<key>`
+	o.st.events = append(o.st.events, "P:"+proto.Enc(flowName)+":"+proto.Enc(p.owner+"."+p.key)+":"+dir+":"+desc)
 	switch v.kind {
 	case 'x':
 		return streamtypes.ProcessorIO{}, fmt.Errorf("probe error")
@@ -158,7 +159,11 @@ func (p *probe) Execute(flowName string, apiStream publictypes.APIStreamI) (stre
 }
 
 func probeFactory(md *streamtypes.ProcessorMetaData) (streamtypes.ProcessorI, error) {
-	return &probe{key: md.Name}, nil
+	owner := "?"
+	if pv, ok := md.Parameters["owner"]; ok && pv.Value != nil {
+		owner = pv.Value.GetString()
+	}
+	return &probe{key: md.Name, owner: owner}, nil
 }
 
 // ---------------------------------------------------------------- files
@@ -181,7 +186,8 @@ func writeFile(path, content string) {
 
 func ptypeYAML(p ptypeDef) string {
 	var b strings.Builder
-	fmt.Fprintf(&b, "name: %s\ndescription: probe\nexec: probe.go\nparameters: {}\noutput_streams:\n", p.name)
+	fmt.Fprintf(&b, "name: %s\ndescription: probe\nexec: probe.go\nparameters:\n  owner:\n    type: string\n"+
+		"    description: the flow that declares the processor\n    required: false\noutput_streams:\n", p.name)
 	for _, o := range p.outs {
 		if o.name == "" {
 			fmt.Fprintf(&b, "  - type: %s\n", typName(o.typ))
@@ -217,7 +223,7 @@ func flowYAML(f *flowDef) string {
 		b.WriteString("  {}\n")
 	}
 	for _, p := range f.procs {
-		fmt.Fprintf(&b, "  %s:\n    processor: %s\n", p[0], p[1])
+		fmt.Fprintf(&b, "  %s:\n    processor: %s\n    parameters:\n      - key: owner\n        value: %s\n", p[0], p[1], f.name)
 	}
 	b.WriteString("flow:\n")
 	for _, d := range []struct {
